@@ -3,7 +3,7 @@
    `teq_rt` (identity or bisimilarity, proofs/RtTcBisim.v), for which `teq_laws` holds and the
    annotated output of the checker is `static_typed` (proofs/RtTcSoundTop.v).
    What remains as premises, per program:
-     prog_syn_ok p, rt_syn_ok p : two computable conditions on the parsed program (the types and the
+     prog_syn_ok p, raw_ok p : two computable conditions on the parsed program (the types and the
                                   names are what the parser + expansion produce), evaluated by the
                                   check modules on every program;
      Topo on reachable configurations : the untyped linearity invariant (spec/Topo.v). *)
@@ -12,8 +12,8 @@ Require Import Grits.Base Grits.ModeDefs Grits.Modes Grits.STypes Grits.Forms Gr
                Grits.Tc Grits.TcTop Grits.spec.SynOk
                Grits.Runtime Grits.spec.RtTyping Grits.spec.Topo Grits.proofs.RtSubst Grits.proofs.RtEffect
                Grits.proofs.StepErrors Grits.proofs.RtSafety Grits.proofs.RtInit Grits.proofs.RtProgress
-               Grits.proofs.RtTheorems Grits.proofs.RtStaticCheck Grits.proofs.RtTcSyn Grits.proofs.RtTcBisim
-               Grits.proofs.ParseSynOk.
+               Grits.proofs.RtTheorems Grits.proofs.RtSafetyNP Grits.proofs.RtStaticCheck Grits.proofs.RtTcSyn Grits.proofs.RtTcBisim
+               Grits.proofs.ParseSynOk Grits.proofs.ParseRaw.
 
 (* ------------------------------------------------------------------ one statically typed program *)
 Section OneProgram.
@@ -87,7 +87,7 @@ Definition topo_runs (p' : program) : Prop :=
 
 (* the initial configuration of an accepted closed program is typed *)
 Theorem initial_typed_tc p p' :
-  typecheck p = Accept p' -> in_fragment p' -> prog_syn_ok p = true -> rt_syn_ok p = true ->
+  typecheck p = Accept p' -> in_fragment p' -> prog_syn_ok p = true -> raw_ok p = true ->
   cfg_typed (p_types p') (p_funs p') (teq_rt (p_types p')) (init_delta p') (init_config p').
 Proof.
   intros Ha Hf PS RS. apply initial_typed; [apply teq_rt_laws|]. apply (tc_annotations_typed_rt p p' Ha PS RS Hf).
@@ -95,7 +95,7 @@ Qed.
 
 (* C01, closed programs, the two polarized modes: no schedule leads to a run-time error *)
 Theorem safety_tc_partial p p' md :
-  typecheck p = Accept p' -> in_fragment p' -> prog_syn_ok p = true -> rt_syn_ok p = true ->
+  typecheck p = Accept p' -> in_fragment p' -> prog_syn_ok p = true -> raw_ok p = true ->
   topo_runs p' -> is_np md = false ->
   forall fuel pick c who e,
     exec_run fuel pick md (p_types p') (p_funs p') (init_config p') <> RError c who e.
@@ -106,7 +106,7 @@ Qed.
 
 (* every reachable configuration is typed *)
 Theorem reachable_typed_tc p p' md c :
-  typecheck p = Accept p' -> in_fragment p' -> prog_syn_ok p = true -> rt_syn_ok p = true ->
+  typecheck p = Accept p' -> in_fragment p' -> prog_syn_ok p = true -> raw_ok p = true ->
   topo_runs p' -> is_np md = false ->
   reachable (p_types p') (p_funs p') md (init_config p') c ->
   exists Δ, init_delta p' ⊆ Δ /\ cfg_typed (p_types p') (p_funs p') (teq_rt (p_types p')) Δ c.
@@ -117,7 +117,7 @@ Qed.
 
 (* C02, asynchronous mode: what is left when a run ends in quiescence *)
 Theorem progress_run_tc_partial p p' :
-  typecheck p = Accept p' -> in_fragment p' -> prog_syn_ok p = true -> rt_syn_ok p = true ->
+  typecheck p = Accept p' -> in_fragment p' -> prog_syn_ok p = true -> raw_ok p = true ->
   topo_runs p' ->
   forall fuel pick c,
     exec_run fuel pick Async (p_types p') (p_funs p') (init_config p') = RQuiescent c ->
@@ -135,7 +135,7 @@ Qed.
 
 (* C02, synchronous mode *)
 Theorem progress_sync_run_tc_partial p p' :
-  typecheck p = Accept p' -> in_fragment p' -> prog_syn_ok p = true -> rt_syn_ok p = true ->
+  typecheck p = Accept p' -> in_fragment p' -> prog_syn_ok p = true -> raw_ok p = true ->
   topo_runs p' ->
   forall fuel pick c,
     exec_run fuel pick Sync (p_types p') (p_funs p') (init_config p') = RQuiescent c ->
@@ -150,22 +150,22 @@ Proof.
   exact (progress_sync_one _ p' (teq_rt_laws _) (tc_annotations_typed_rt p p' Ha PS RS Hf) Ht).
 Qed.
 
-(* ------------------------------------------------------------------ programs that come out of the parser: prog_syn_ok is a theorem
-   (proofs/ParseSynOk.v), one computable premise is left *)
+(* ------------------------------------------------------------------ programs that come out of the parser: prog_syn_ok and raw_ok
+   are theorems (proofs/ParseSynOk.v, proofs/ParseRaw.v) *)
 Theorem tc_annotations_typed_parsed txt p p' :
-  parse_string txt = POk p -> typecheck p = Accept p' -> in_fragment p' -> rt_syn_ok p = true ->
+  parse_string txt = POk p -> typecheck p = Accept p' -> in_fragment p' ->
   static_typed (teq_rt (p_types p')) p'.
-Proof. intros Hp Ha Hf RS. exact (tc_annotations_typed_rt p p' Ha (parse_syn_ok _ _ Hp) RS Hf). Qed.
+Proof. intros Hp Ha Hf. exact (tc_annotations_typed_rt p p' Ha (parse_syn_ok _ _ Hp) (parse_raw_ok _ _ Hp) Hf). Qed.
 
 Theorem safety_parsed_partial txt p p' md :
-  parse_string txt = POk p -> typecheck p = Accept p' -> in_fragment p' -> rt_syn_ok p = true ->
+  parse_string txt = POk p -> typecheck p = Accept p' -> in_fragment p' ->
   topo_runs p' -> is_np md = false ->
   forall fuel pick c who e,
     exec_run fuel pick md (p_types p') (p_funs p') (init_config p') <> RError c who e.
-Proof. intros Hp Ha Hf RS. exact (safety_tc_partial p p' md Ha Hf (parse_syn_ok _ _ Hp) RS). Qed.
+Proof. intros Hp Ha Hf. exact (safety_tc_partial p p' md Ha Hf (parse_syn_ok _ _ Hp) (parse_raw_ok _ _ Hp)). Qed.
 
 Theorem progress_run_parsed_partial txt p p' :
-  parse_string txt = POk p -> typecheck p = Accept p' -> in_fragment p' -> rt_syn_ok p = true ->
+  parse_string txt = POk p -> typecheck p = Accept p' -> in_fragment p' ->
   topo_runs p' ->
   forall fuel pick c,
     exec_run fuel pick Async (p_types p') (p_funs p') (init_config p') = RQuiescent c ->
@@ -176,10 +176,10 @@ Theorem progress_run_parsed_partial txt p p' :
                       chans c !! k = Some st /\ ch_buf st = None /\ ch_closed st = false) /\
     (forall k st m, chans c !! k = Some st -> ch_buf st = Some m -> is_pos_rule (m_rule m) = true) /\
     ((forall k, alive c k -> exists o, obj_in c o /\ k ∈ refs o) -> procs c = ∅).
-Proof. intros Hp Ha Hf RS. exact (progress_run_tc_partial p p' Ha Hf (parse_syn_ok _ _ Hp) RS). Qed.
+Proof. intros Hp Ha Hf. exact (progress_run_tc_partial p p' Ha Hf (parse_syn_ok _ _ Hp) (parse_raw_ok _ _ Hp)). Qed.
 
 Theorem progress_sync_run_parsed_partial txt p p' :
-  parse_string txt = POk p -> typecheck p = Accept p' -> in_fragment p' -> rt_syn_ok p = true ->
+  parse_string txt = POk p -> typecheck p = Accept p' -> in_fragment p' ->
   topo_runs p' ->
   forall fuel pick c,
     exec_run fuel pick Sync (p_types p') (p_funs p') (init_config p') = RQuiescent c ->
@@ -189,7 +189,48 @@ Theorem progress_sync_run_parsed_partial txt p p' :
           exists m, action_of Sync (p_types p') pr = ASend k m /\ is_pos_rule (m_rule m) = true)) /\
     ((forall k, (exists self pr, procs c !! self = Some pr /\ k ∈ cids_of (pr_provs pr)) ->
                 exists o, obj_in c o /\ k ∈ refs o) -> procs c = ∅).
-Proof. intros Hp Ha Hf RS. exact (progress_sync_run_tc_partial p p' Ha Hf (parse_syn_ok _ _ Hp) RS). Qed.
+Proof. intros Hp Ha Hf. exact (progress_sync_run_tc_partial p p' Ha Hf (parse_syn_ok _ _ Hp) (parse_raw_ok _ _ Hp)). Qed.
+
+(* ------------------------------------------------------------------ the non-polarized mode (the CLI's --sync): proofs/RtSafetyNP.v *)
+Definition topo_runs_np (p' : program) : Prop :=
+  forall c, reachable (p_types p') (p_funs p') NP (init_config p') c -> Topo c.
+
+Theorem safety_np_tc_partial p p' :
+  typecheck p = Accept p' -> in_fragment p' -> prog_syn_ok p = true -> raw_ok p = true ->
+  topo_runs_np p' ->
+  forall fuel pick c who e,
+    exec_run fuel pick NP (p_types p') (p_funs p') (init_config p') <> RError c who e.
+Proof.
+  intros Ha Hf PS RS Ht fuel pick c who e.
+  pose proof (tc_annotations_typed_rt p p' Ha PS RS Hf) as Hst.
+  apply (exec_run_safe_np (p_types p') (p_funs p') (teq_rt (p_types p')) (teq_rt_laws _) (proj1 Hst) fuel pick
+           (init_delta p') (init_config p') (initial_typed _ p' (teq_rt_laws _) Hst)).
+  intros c' Hr. apply topo_closed_unused_np. apply Ht. exact Hr.
+Qed.
+
+Theorem safety_np_parsed_partial txt p p' :
+  parse_string txt = POk p -> typecheck p = Accept p' -> in_fragment p' -> topo_runs_np p' ->
+  forall fuel pick c who e,
+    exec_run fuel pick NP (p_types p') (p_funs p') (init_config p') <> RError c who e.
+Proof. intros Hp Ha Hf. exact (safety_np_tc_partial p p' Ha Hf (parse_syn_ok _ _ Hp) (parse_raw_ok _ _ Hp)). Qed.
+
+(* the statement aimed at (`safety_statement` of proofs/RtTheorems.v: the three modes), for parsed
+   programs, with Topo on the reachable configurations as the only premise *)
+Theorem safety_all_modes_parsed_partial txt p p' md :
+  parse_string txt = POk p -> typecheck p = Accept p' -> in_fragment p' ->
+  (forall c, reachable (p_types p') (p_funs p') md (init_config p') c -> Topo c) ->
+  forall fuel pick c who e,
+    exec_run fuel pick md (p_types p') (p_funs p') (init_config p') <> RError c who e.
+Proof.
+  intros Hp Ha Hf Ht fuel pick c who e.
+  pose proof (tc_annotations_typed_parsed txt p p' Hp Ha Hf) as Hst.
+  destruct (is_np md) eqn:Hnp.
+  - destruct md; try discriminate Hnp.
+    exact (safety_np_parsed_partial txt p p' Hp Ha Hf Ht fuel pick c who e).
+  - apply (exec_run_safe (p_types p') (p_funs p') (teq_rt (p_types p')) (teq_rt_laws _) (proj1 Hst) md fuel pick Hnp
+             (init_delta p') (init_config p') (initial_typed _ p' (teq_rt_laws _) Hst)).
+    intros c' Hr self pr k st. eapply topo_closed_unused; [exact Hnp|exact (Ht c' Hr)].
+Qed.
 
 (* ------------------------------------------------------------------ the two computable premises, as the check module evaluates them *)
 Inductive syn_verdict : Type :=
@@ -200,7 +241,7 @@ Definition syn_premises_text (txt : string) : syn_verdict :=
     match typecheck p with
     | Accept p' =>
       if in_fragment_b p' then
-        (if prog_syn_ok p then (if rt_syn_ok p then SY_ok else SY_names_not_syn) else SY_types_not_syn)
+        (if prog_syn_ok p then (if raw_ok p then SY_ok else SY_names_not_syn) else SY_types_not_syn)
       else SY_outside_fragment
     | _ => SY_rejected
     end
@@ -210,13 +251,13 @@ Definition syn_premises_text (txt : string) : syn_verdict :=
 (* where the answer is SY_ok the annotated output of the typechecker is typed in the run-time judgement *)
 Theorem syn_premises_sound txt : syn_premises_text txt = SY_ok ->
   exists p p', parse_string txt = POk p /\ typecheck p = Accept p' /\ in_fragment p' /\
-               prog_syn_ok p = true /\ rt_syn_ok p = true /\
+               prog_syn_ok p = true /\ raw_ok p = true /\
                static_typed (teq_rt (p_types p')) p'.
 Proof.
   unfold syn_premises_text. destruct (parse_string txt) as [p| | |]; try discriminate.
   destruct (typecheck p) as [p'| | |] eqn:Et; try discriminate.
   destruct (in_fragment_b p') eqn:Ef; [|discriminate]. apply in_fragment_b_sound in Ef.
-  destruct (prog_syn_ok p) eqn:PS; [|discriminate]. destruct (rt_syn_ok p) eqn:RS; [|discriminate].
+  destruct (prog_syn_ok p) eqn:PS; [|discriminate]. destruct (raw_ok p) eqn:RS; [|discriminate].
   intros _. exists p, p'. split; [reflexivity|]. split; [exact Et|]. split; [exact Ef|].
   split; [exact PS|]. split; [exact RS|]. apply (tc_annotations_typed_rt p p' Et PS RS Ef).
 Qed.
@@ -224,7 +265,7 @@ Qed.
 (* ------------------------------------------------------------------ the premises hold of the examples *)
 Definition text_syn_ok (txt : string) : bool :=
   match parse_string txt with
-  | POk p => prog_syn_ok p && rt_syn_ok p
+  | POk p => prog_syn_ok p && raw_ok p
   | _ => false
   end.
 
